@@ -1,6 +1,7 @@
 import Driver.Mon
 import AV.Spec.C20
 import AV.Spec.C06
+import AV.Spec.C02
 open Lean AV AV.Pub
 
 namespace Drv
@@ -463,6 +464,97 @@ def c06 (inp obs : Json) : Res :=
   match checkSteps obs c06Step with
   | none => { agree := agree, specOk := true, why := why,
               nontrivial := !inconclusive && (stepsOf obs).any fun (_, o) => (libTrace o).any fun e => e.name == "blocked" }
+  | some m => { agree := agree, specOk := false, why := m ++ (if agree then "" else " | " ++ why) }
+
+/-! #### C02 -/
+
+/-- the inbox of an actor document, as `getInbox` reads it -/
+def inboxOfDoc (doc : J) : Option Iri :=
+  if !Val.has facts doc "inbox" then none else
+  match doc.get? "inbox" with
+  | none => none
+  | some j => (match Val.toId facts (Val.elemOf facts j) with
+    | .ok u => some u
+    | .error _ => none)
+
+def depthOf (evs : List RecEv) : Int :=
+  match evs.find? fun e => e.name == "maxDeliveryDepth" with
+  | some e => e.resp.getInt?.toOption.getD 0
+  | none => 0
+
+open AV.Spec.C02 in
+def c02Step (sin sobs : Json) : Option String :=
+  let evs := libTrace sobs
+  let entry := jstr sin "entry"
+  if !(entry == "postOutbox" || entry == "send") then none else
+  if (sobs.getObjVal? "panic").toOption.isSome then none else
+  let delivers := evs.filter fun e => e.name == "batchDeliver"
+  -- Public is never dereferenced as a recipient (a member of a fetched collection is the collection's business)
+  let derefs : List (Iri × Json) := evs.filterMap fun e => if e.name == "deref" then some ((e.args.getD 0 Json.null).getStr?.toOption.getD "", e.resp) else none
+  if delivers.length > 1 then some s!"the payload was handed to the transport {delivers.length} times" else
+  match delivers with
+  | [] => none
+  | dl :: _ =>
+  let payload := J.norm (toJ (dl.args.getD 0 Json.null))
+  let got : List Iri := jIris (dl.args.getD 1 Json.null)
+  let pid := Val.idGet payload
+  -- the activity as stored (still with bto/bcc)
+  let stored := evs.findSome? fun e => if e.name == "create" && !isErr e.resp && Val.idGet (toJ (e.args.getD 0 Json.null)) == pid then some (J.norm (toJ (e.args.getD 0 Json.null))) else none
+  match stored with
+  | none => none
+  | some A =>
+  match addressed facts A with
+  | none => some "delivered although an addressing element has no id"
+  | some r0 =>
+  let r := filterPublic r0
+  -- a federation graph read off the trace; a recipient answered differently at different times makes the case inconclusive
+  let consistent := derefs.all fun (u, resp) => derefs.all fun (u', resp') => u != u' || resp == resp'
+  if !consistent then none else
+  -- the federation graph: ground truth from the scenario where the harness supplies it, overridden by what the
+  -- transport actually answered (injected faults)
+  let truth := jget sin "remoteDocs"
+  let G : Iri → E Doc := fun u => match derefs.find? (fun d => d.1 == u) with
+    | some (_, resp) => (eDoc resp).getD (.error .injected)
+    | none => (match (truth.getObjVal? u).toOption with
+      | some resp => (eDoc resp).getD (.error .injected)
+      | none => .error .injected)
+  let storedTruth := jget sin "inboxFor"
+  let storedInbox (u : Iri) : Option Iri := match evs.find? (fun e => e.name == "inboxForActor" && (e.args.getD 0 Json.null).getStr?.toOption == some u) with
+    | some e => (jget e.resp "ok").getStr?.toOption
+    | none => (storedTruth.getObjValAs? String u).toOption
+  let found := r.filterMap storedInbox
+  let rest := r.filter fun u => (storedInbox u).isNone
+  let depth : Int := depthOf evs
+  if depth ≤ 0 then none else
+  let actors := reachActors facts G depth.toNat rest
+  let remote := actors.filterMap inboxOfDoc
+  if remote.length != actors.length then none else   -- an actor document without inbox: the delivery fails (C11)
+  let owner := (evs.find? fun e => e.name == "actorForOutbox").bind fun e => (jget e.resp "ok").getStr?.toOption
+  let ownInbox : Option Iri := owner.bind fun o => (evs.findSome? fun e =>
+    if e.name == "get" && (e.args.getD 0 Json.null).getStr?.toOption == some o then inboxOfDoc (J.norm (toJ (jget e.resp "ok"))) else none)
+  match ownInbox with
+  | none => none
+  | some own =>
+  let expect := sortDedup ((found ++ remote).filter fun k => k != own)
+  if sortDedup got != expect then some s!"recipients {got} are not the addressed inboxes {expect}"
+  else if got.length != (sortDedup got).length then some s!"recipients contain duplicates: {got}"
+  else if derefs.any (fun d => isPublic d.1 && r0.contains d.1) then some "the Public collection was dereferenced"
+  else
+    -- nothing is fetched that is not within the configured depth of an addressed recipient
+    let rec allowed (d : Nat) (us : List Iri) : List Iri :=
+      match d with
+      | 0 => []
+      | d + 1 => us ++ allowed d (us.flatMap fun u => match fetchSpec facts G u with | some (_, more) => more | none => [])
+    let ok := allowed depth.toNat rest
+    match derefs.find? fun d => !ok.contains d.1 with
+    | some d => some s!"{d.1} was dereferenced although it is not within depth {depth} of an addressed recipient"
+    | none => none
+
+def c02 (inp obs : Json) : Res :=
+  let (agree, why, inconclusive) := replayAll inp obs
+  match checkSteps obs c02Step with
+  | none => { agree := agree, specOk := true, why := why,
+              nontrivial := !inconclusive && (stepsOf obs).any fun (_, o) => (libTrace o).any fun e => e.name == "batchDeliver" }
   | some m => { agree := agree, specOk := false, why := m ++ (if agree then "" else " | " ++ why) }
 
 def pubGeneric (_prop : String) (inp obs : Json) : Res :=
